@@ -9,18 +9,43 @@ A *group state* is identified by a number: `0` is the state the scenario starts 
 reached by applying commit number `k` is `k + 1`.  A commit records who built it and on which state.
 The epoch of a state is its depth in that tree of states.
 
+A commit also carries three attributes (`Kind`) that change what its receivers do:
+* `hasPath`: the commit has an update path (empty, Update and Remove commits do; Add-only / PSK-only
+  commits do not).  A member that receives its *own* commit as an incoming message (not the pending
+  one) refuses it with `cantProcessMessageFromSelf` only if it has a path; a path-less own commit is
+  processed like anybody else's.
+* `removes`: a member the commit removes (never its author).  That member, when it processes the
+  commit, succeeds, stays in its state and loses its pending commit.
+* `reinit`: the commit carries a ReInit proposal.  A member that installs it is `frozen`: it can
+  neither build nor process any commit any more (`groupUsedAfterReInit`).
+
 Import-free (linked into the native driver).
 -/
 namespace MlsVerif.Pending
 
+/-- the attributes of a commit that matter to its receivers; the default is the empty commit -/
+structure Kind where
+  hasPath : Bool := true
+  removes : Option Nat := none
+  reinit : Bool := false
+  deriving DecidableEq, Repr
+
+/-- a commit by member `m` of a group of `n` members may remove another existing member only -/
+def Kind.valid (kd : Kind) (n m : Nat) : Bool :=
+  match kd.removes with
+  | none => true
+  | some j => j != m && decide (j < n)
+
 structure Commit where
   author : Nat
   base : Nat
+  kind : Kind := {}
   deriving DecidableEq, Repr
 
 structure Member where
   cur : Nat := 0
   pending : Option Nat := none        -- commit id of the pending commit
+  frozen : Bool := false              -- the state `cur` was reached by a reinit commit
   deriving DecidableEq, Repr
 
 structure World where
@@ -29,7 +54,7 @@ structure World where
   deriving Repr
 
 inductive Op
-  | build (m : Nat) (detached : Bool)
+  | build (m : Nat) (detached : Bool) (kind : Kind)
   | clear (m : Nat)
   | apply (m : Nat)
   | applyDet (m : Nat) (k : Nat)      -- apply the commit secrets of commit `k` (built by `m`)
@@ -42,6 +67,7 @@ inductive Res
   | pendingCommitNotFound
   | invalidEpoch
   | cantProcessMessageFromSelf
+  | groupUsedAfterReInit
   | badOp
   deriving DecidableEq, Repr
 
@@ -63,15 +89,22 @@ def World.epoch (w : World) (s : Nat) : Nat := epochOf w.commits (s + 1) s
 def setMember (w : World) (m : Nat) (x : Member) : World :=
   { w with members := w.members.set m x }
 
+/-- the member record of somebody who has just installed commit `k` (= `c`): state `k + 1`, no pending
+commit, frozen iff the commit is a reinit commit -/
+def install (k : Nat) (c : Commit) : Member :=
+  { cur := k + 1, pending := none, frozen := c.kind.reinit }
+
 def step (w : World) : Op → World × Res
-  | .build m detached =>
+  | .build m detached kd =>
     match w.members[m]? with
     | none => (w, .badOp)
     | some x =>
       if x.pending.isSome then (w, .existingPendingCommit)
+      else if x.frozen then (w, .groupUsedAfterReInit)
+      else if !kd.valid w.members.length m then (w, .badOp)   -- removes itself / nobody
       else
         let k := w.commits.length
-        let w' := { w with commits := w.commits ++ [{ author := m, base := x.cur }] }
+        let w' := { w with commits := w.commits ++ [{ author := m, base := x.cur, kind := kd }] }
         if detached then (w', .ok) else (setMember w' m { x with pending := some k }, .ok)
   | .clear m =>
     match w.members[m]? with
@@ -83,23 +116,30 @@ def step (w : World) : Op → World × Res
     | some x =>
       match x.pending with
       | none => (w, .pendingCommitNotFound)
-      | some k => (setMember w m { cur := k + 1, pending := none }, .ok)
+      | some k =>
+        match w.commits[k]? with
+        | none => (w, .badOp)           -- never in a reachable world (`Inv.pending_wf`)
+        | some c => (setMember w m (install k c), .ok)
   | .applyDet m k =>
     match w.members[m]?, w.commits[k]? with
     | some x, some c =>
       if c.author ≠ m then (w, .badOp)
       else if w.epoch c.base ≠ w.epoch x.cur then (w, .invalidEpoch)
-      else (setMember w m { cur := k + 1, pending := none }, .ok)
+      else if x.frozen then (w, .groupUsedAfterReInit)
+      else (setMember w m (install k c), .ok)
     | _, _ => (w, .badOp)
   | .deliver m k =>
     match w.members[m]?, w.commits[k]? with
     | some x, some c =>
-      if x.pending = some k then (setMember w m { cur := k + 1, pending := none }, .ok)
+      if x.pending = some k then (setMember w m (install k c), .ok)
       else if w.epoch c.base ≠ w.epoch x.cur then (w, .invalidEpoch)
-      else if c.author = m then (w, .cantProcessMessageFromSelf)
+      else if c.author = m ∧ c.kind.hasPath = true then (w, .cantProcessMessageFromSelf)
       else if c.base ≠ x.cur then (w, .invalidEpoch)   -- same epoch number on another branch: rejected
                                                        -- by the real code on cryptographic grounds
-      else (setMember w m { cur := k + 1, pending := none }, .ok)
+      else if x.frozen then (w, .groupUsedAfterReInit)
+      else if c.kind.removes = some m then
+        (setMember w m { x with pending := none }, .ok)   -- removed: stays where it is
+      else (setMember w m (install k c), .ok)
     | _, _ => (w, .badOp)
 
 def run (w : World) : List Op → World × List Res
